@@ -23,7 +23,8 @@ FRACS = [('inside, generic', np.array([(0.12345678, 0.5, 0.25), (0.33333333, 0.6
          ('on the cell boundary', np.array([(0.0, 0.0, 0.0), (1.0, 0.5, 0.0), (0.99996, 0.25, 1.0), (0.00004, 0.99999, 0.5), (0.5, 1.0, 0.5)]))]
 ELS = ['C', 'N', 'C', 'O', 'Zr']
 TUPS = {'bond': [(0, 1), (1, 2), (3, 2)], 'angle': [(0, 1, 2), (1, 2, 3), (3, 0, 4)], 'dihedral': [(0, 1, 2, 3), (4, 2, 1, 0), (1, 0, 3, 2)], 'improper': [(1, 0, 2, 3), (2, 1, 3, 4), (0, 3, 1, 2)]}
-TSHAPES = [(0, 0, 0, 0), (1, 1, 1, 0), (3, 3, 3, 0), (1, 1, 1, 1), (3, 0, 3, 3), (0, 0, 0, 3), (2, 3, 0, 1)]
+TSHAPES_Q = [(0, 0, 0, 0), (1, 1, 1, 0), (3, 3, 3, 0), (1, 1, 1, 1), (3, 0, 3, 3), (0, 0, 0, 3), (2, 3, 0, 1)]
+TSHAPES = TSHAPES_Q + [t for t in itertools.product((0, 1, 3), repeat=4) if t not in TSHAPES_Q]      # thorough: every (bonds, angles, dihedrals, impropers) count in {0,1,3}^4
 XCOLS = [0, 1, 2]
 CHARGES = [[0, 0, 0, 0, 0], [-0.8234567, 12.5, 0.0, 1e-7, 2.0]]
 
@@ -33,7 +34,7 @@ def plan(tier, seed):
     q = tier == 'quick'
     for ci in range(len(CELLS)):
         for fi in range(len(FRACS)):
-            for ts in range(len(TSHAPES)):
+            for ts in range(len(TSHAPES_Q) if q else len(TSHAPES)):
                 for xc in XCOLS:
                     for ch in range(2):
                         for fract in (1, 0):
@@ -46,7 +47,7 @@ def plan(tier, seed):
                             scs.append(dict(kind='write', cell=ci, fr=fi, ts=ts, xc=xc, ch=ch, fract=fract))
     scs += [dict(kind='read', i=i) for i in range(len(read_menu()))]
     return dict(scenarios=scs, exhaustive=True, chunk=8,
-                menus=dict(cells=[c[0] for c in CELLS], coordinates=[f[0] for f in FRACS], term_shapes=TSHAPES, extra_columns_per_kind=XCOLS, charges=CHARGES, output=['fractional', 'Cartesian'],
+                menus=dict(cells=[c[0] for c in CELLS], coordinates=[f[0] for f in FRACS], term_shapes=TSHAPES_Q if q else 'all 81 count tuples in {0,1,3}^4 + (2,3,0,1)', extra_columns_per_kind=XCOLS, charges=CHARGES, output=['fractional', 'Cartesian'],
                            read_side=[r[0] for r in read_menu()]),
                 bounds=dict(atoms=5), rule='one scenario per shape tuple / hand-written file; non-trivial = terms of at least two kinds or extra columns present',
                 assumptions=['the PyCifRW and ase versions installed in /venv', 'Cartesian output is only in the domain for cells in the standard CIF orientation (a along x, b in the xy plane)',
@@ -170,7 +171,7 @@ def reread_matches(a, b, fract):
         fa = np.asarray(a.positions) @ np.linalg.inv(a.cell); fb = np.asarray(b.positions) @ np.linalg.inv(b.cell)
         if fa.shape != fb.shape or lattice_dist(fa, fb) > (6e-5 if fract else 6e-5):
             errs.append('fractional coordinates mod 1: %r -> %r' % (np.round(fa, 5).tolist(), np.round(fb, 5).tolist()))
-        if fract and (fb.min() < -1e-9 or fb.max() >= 1 + 1e-9):
+        if fract and (fb.min() < -1e-9 or fb.max() > 1 - 1e-9):        # printed with 4 decimals, so a wrapped coordinate is at most 0.9999
             errs.append('re-read fractional coordinates are not wrapped into the cell: %r' % np.round(fb, 6).tolist())
     elif np.abs(np.asarray(a.positions) - np.asarray(b.positions)).max() > 5.1e-5:
         errs.append('Cartesian positions changed')
@@ -270,7 +271,9 @@ def run(sc, ctx):
                 bad('independent-reader', e.split(',')[0][:30], '%s: %s' % (name, e), text=text)
         out['nontrivial'] = 1
         return out
-    a = build(sc); fract = sc['fract']
+    a, err = call(build, sc); fract = sc['fract']
+    if err:
+        bad('construct', 'exc:' + exc_sig(err), 'a consistent structure (terms %r, %d extra column(s) per kind) cannot be constructed: %r' % (TSHAPES[sc['ts']], sc['xc'], err[0]), tb=err[1]); return out
     before = raw_state(a)
     T1, err = call(save, a, fract); out['evals'] += 1
     if err:
